@@ -64,6 +64,11 @@ PROGRAMS = [
     "import pa, pb\nfrom Pq import zf\nprint(pa.K)\ndel zf, pa, pb\n",
     "import pa.s2\ndel pa\nprint(1)\n",
     "def fn(v=[1, 2]):\n    match v:\n        case [a, *rest]:\n            return rest\nfrom pa import f as rest\nprint(fn(), rest(1))\n",
+    # listed findings D63-D66
+    "import pa\n'not a docstring'\nprint(1)\n",
+    "import pa as _A__x\nclass A:\n    def m(self):\n        return __x.K\nprint(A().m())\n",
+    "from pb import f\nfrom pa import *\nprint(f(1))\n",
+    "from pa import K\nclass K:\n    y = K + 1\nprint(K.y)\n",
     # string annotation / f-string uses
     "from pa import C\ndef ann(x: 'C') -> 'C':\n    return x\nprint(ann(1), f'{C().m(1)}')\n",
 ]
